@@ -305,6 +305,53 @@ pub fn template<S: Src, const T: usize>(s: &mut S) -> Verdict {
     Ok(())
 }
 
+/// `RR::from_string` on concrete texts: the systematically damaged variants of
+/// the property's quantifier (each must be an error, never a panic) and one
+/// valid text per type at boundary values (wire form must equal the RFC 1035
+/// encoding). Concrete inputs: the solver executes the real parser on them;
+/// the symbolic part of C13 is in the builders and templates.
+pub fn concrete_text<S: Src, const T: usize>(s: &mut S) -> Verdict {
+    let (text, want): (&str, Option<Vec<u8>>) = match T {
+        // ---- damaged variants: must be errors
+        0 => ("ab.cd 7 IN DS 9 8 2 abc", None),                 // odd number of hex digits
+        1 => ("ab.cd 7 IN DS 9 8 2 zz", None),                  // non-hex digest
+        2 => ("ab.cd 7 IN A 1.2.3.256", None),                  // octet out of range
+        3 => ("ab.cd 4294967296 IN A 1.2.3.4", None),           // TTL 2^32
+        4 => ("ab.cd 7 IN MX 65536 m.x", None),                 // preference 2^16
+        5 => ("ab.cd 7 IN TXT \"abc", None),                    // unbalanced quote
+        6 => ("ab.cd 7 IN TXT \"a\\300\"", None),               // escape above 255
+        7 => ("ab.cd 7 IN A 1.2.3.4 5", None),                  // surplus field
+        8 => ("ab.cd 7 IN MX 10", None),                        // missing field
+        9 => ("ab.cd 7 CH A 1.2.3.4", None),                    // class other than IN
+        10 => ("ab.cd 7 IN AAAA 1.2.3.4", None),                // malformed IPv6 address
+        // ---- valid texts at boundary values
+        11 => ("ab.cd 0 in a 255.0.0.255", Some(wire_of(b"ab.cd", 1, 0, &[255, 0, 0, 255]))),
+        12 => ("ab.cd\t4294967295  IN\tMX  65535 m.x", {
+            let mut rd = vec![0xff, 0xff];
+            push_name(&mut rd, b"m.x");
+            Some(wire_of(b"ab.cd", 15, 4294967295, &rd))
+        }),
+        13 => ("ab.cd 7 IN TXT \"\\255\\000a\"", Some(wire_of(b"ab.cd", 16, 7, &[3, 255, 0, b'a']))),
+        14 => ("ab.cd 7 IN DS 65535 255 0 00fF", Some(wire_of(b"ab.cd", 43, 7, &[0xff, 0xff, 255, 0, 0x00, 0xff]))),
+        _ => ("ab.cd 7 IN SOA n.s h.m (4294967295 0 1 2 3)", {
+            let mut rd = Vec::new();
+            push_name(&mut rd, b"n.s");
+            push_name(&mut rd, b"h.m");
+            rd.extend_from_slice(&[255, 255, 255, 255, 0, 0, 0, 0, 0, 0, 0, 1, 0, 0, 0, 2, 0, 0, 0, 3]);
+            Some(wire_of(b"ab.cd", 6, 7, &rd))
+        }),
+    };
+    let r = r#gen::RR::from_string(text);
+    match (r, want) {
+        (Ok(rr), Some(w)) => vassert!(slices_eq(&rr.packet, &w), "from_string: exactly the RFC 1035 wire form of the record"),
+        (Err(_), None) => {}
+        (Ok(_), None) => vassert!(false, "from_string: text outside the grammar yields an error"),
+        (Err(_), Some(_)) => vassert!(false, "from_string: text in the grammar is accepted"),
+    }
+    vcover!(s, true, "end");
+    Ok(())
+}
+
 /// every ASCII string of up to N bytes: no panic; (N is far too short for a
 /// record, so) an error.
 pub fn arbitrary<S: Src, const N: usize>(s: &mut S) -> Verdict {
